@@ -1,20 +1,7 @@
-/- C14: the table-wide checks of the Elements family (closed computations checked by the kernel). -/
-import SimplicityModel.Gen.JetsElements
-import SimplicityModel.KernelRfl
+/- C14: the Elements family passes every table-wide check (parts A and B). -/
+import SimplicityModel.C14.ElementsA
+import SimplicityModel.C14.ElementsB
 namespace C14.Elements
 open JetTable JetTable.Family
-set_option maxRecDepth 20000
-
-theorem keys_tie : Gen.Elements.family.rows.map (fun r => (r.name, r.src, r.tgt)) =
-    Gen.Elements.family.keys.map (fun k => (strOfKey k.1, strOfKey k.2.1, strOfKey k.2.2)) := by kernel_rfl
-theorem enc_tie : Gen.Elements.family.codes = Gen.Elements.family.enc.map (fun e => Spk.bitsBE e.1 e.2) := by decide +kernel
-theorem decode : checkDecodeFrom Gen.Elements.family.trie 0 Gen.Elements.family.codes = true := by decide +kernel
-theorem leaves : checkLeaves Gen.Elements.family.trie Gen.Elements.family.codes.length = true := by decide +kernel
-theorem sorted : sortedBytes Gen.Elements.family.nameBytes = true := by decide +kernel
-theorem ascii : allB isAscii Gen.Elements.family.nameBytes = true := by decide +kernel
-theorem arms : checkArmsFrom 0 Gen.Elements.family.parseArms Gen.Elements.family.nameKeys = true := by decide +kernel
-theorem types : allB (fun k => (ctyOfName (bytesOfKey k.2.1)).isSome && (ctyOfName (bytesOfKey k.2.2)).isSome) Gen.Elements.family.keys = true := by decide +kernel
-
 theorem checked : Gen.Elements.family.Checked := ⟨keys_tie, enc_tie, decode, leaves, sorted, ascii, arms, types⟩
-theorem count : Gen.Elements.family.rows.length = 471 := by decide +kernel
 end C14.Elements
